@@ -272,12 +272,13 @@ Definition bit_in_field (i : Z) (f : dbfield) : bool :=
 Definition range_covered (d : dbdef) (o l : Z) : bool :=
   (0 <=? o) && (0 <=? l) &&
   forallb (fun k => existsb (bit_in_field (o + Z.of_nat k)) (Defn.d_fields d)) (seq 0 (Z.to_nat l)).
-Definition match_covered (g : list dbdef) (d : dbdef) : bool :=
-  forallb (fun d' => forallb (fun f' =>
+Definition def_covered (d d' : dbdef) : bool :=
+  forallb (fun f' =>
      match f_match f', f_bitoff f', f_bitlen f' with
      | Some _, Some o, Some l => range_covered d o l
      | _, _, _ => true
-     end) (Defn.d_fields d')) g.
+     end) (Defn.d_fields d').
+Definition match_covered (g : list dbdef) (d : dbdef) : bool := forallb (def_covered d) g.
 
 Lemma range_covered_sound d p q o l : range_covered d o l = true ->
   (forall f off len, In f (Defn.d_fields d) -> f_bitoff f = Some off -> f_bitlen f = Some len -> exact_field f = true ->
@@ -298,16 +299,114 @@ Proof.
   apply (field_bits_testbit q p fo fl i B1 ltac:(lia) (H f fo fl Hin Eo El Ex)). lia.
 Qed.
 
+Lemma def_covered_sound d d' p q : def_covered d d' = true ->
+  (forall f off len, In f (Defn.d_fields d) -> f_bitoff f = Some off -> f_bitlen f = Some len -> exact_field f = true ->
+                     field_bits q off len = field_bits p off len) ->
+  def_matches q d' = def_matches p d'.
+Proof.
+  intros C H. unfold def_matches. apply forallb_ext_in. intros f' Hf. unfold match_ok.
+  unfold def_covered in C. rewrite forallb_forall in C. specialize (C f' Hf).
+  destruct (f_match f') as [mv|]; [|reflexivity].
+  destruct (f_bitoff f') as [o|]; [|reflexivity]. destruct (f_bitlen f') as [l|]; [|reflexivity].
+  rewrite (range_covered_sound d p q o l C H). reflexivity.
+Qed.
+
 Lemma match_covered_sound g d p q : match_covered g d = true ->
   (forall f off len, In f (Defn.d_fields d) -> f_bitoff f = Some off -> f_bitlen f = Some len -> exact_field f = true ->
                      field_bits q off len = field_bits p off len) ->
   spec_select g q = spec_select g p.
 Proof.
-  intros C H. apply spec_select_agree. intros d' f' off len Hd Hf M Eo El.
-  unfold match_covered in C. rewrite forallb_forall in C. specialize (C d' Hd).
-  rewrite forallb_forall in C. specialize (C f' Hf). rewrite Eo, El in C.
-  destruct (f_match f'); [|congruence].
-  exact (range_covered_sound d p q off len C H).
+  intros C H. unfold spec_select.
+  rewrite (find_ext_in (fun d => negb (d_fallback d) && def_matches q d) (fun d => negb (d_fallback d) && def_matches p d)).
+  - reflexivity.
+  - intros d' Hd. unfold match_covered in C. rewrite forallb_forall in C.
+    rewrite (def_covered_sound d d' p q (C d' Hd) H). reflexivity.
+Qed.
+
+(* ---- a second way to keep the selection: the OTHER definitions of the group are excluded by d's own match values ----
+   `pin d i` = the value the match fields of d prescribe for payload bit i; two definitions CONFLICT when they prescribe
+   different values for some bit: no payload matches both. *)
+Lemma field_bits_bit q o l k : 0 <= o -> 0 <= l -> 0 <= k ->
+  Z.testbit (field_bits q o l) k = (k <? l) && Z.testbit q (k + o).
+Proof. intros Ho Hl Hk. rewrite <- decode_int_bits by assumption. apply testbit_decode_int; assumption. Qed.
+
+Definition pins_at (i : Z) (f : dbfield) : bool :=
+  match f_match f, f_bitoff f, f_bitlen f with
+  | Some _, Some o, Some l => (0 <=? o) && (o <=? i) && (i <? o + l)
+  | _, _, _ => false
+  end.
+Definition pin (d : dbdef) (i : Z) : option bool :=
+  match find (pins_at i) (Defn.d_fields d) with
+  | Some f => match f_match f, f_bitoff f with Some mv, Some o => Some (Z.testbit mv (i - o)) | _, _ => None end
+  | None => None
+  end.
+Definition match_bits (d : dbdef) : list Z :=
+  flat_map (fun f => match f_match f, f_bitoff f, f_bitlen f with
+                     | Some _, Some o, Some l => map (fun k => o + Z.of_nat k) (seq 0 (Z.to_nat l))
+                     | _, _, _ => []
+                     end) (Defn.d_fields d).
+Definition conflict (d d' : dbdef) : bool :=
+  existsb (fun i => match pin d i, pin d' i with Some b, Some b' => negb (Bool.eqb b b') | _, _ => false end) (match_bits d').
+
+Lemma pin_sound q d i b : def_matches q d = true -> pin d i = Some b -> Z.testbit q i = b.
+Proof.
+  unfold pin. intros M P. destruct (find (pins_at i) (Defn.d_fields d)) as [f|] eqn:F; [|discriminate].
+  apply find_some in F. destruct F as [Hin Pa]. unfold pins_at in Pa.
+  destruct (f_match f) as [mv|] eqn:Em; [|discriminate]. destruct (f_bitoff f) as [o|] eqn:Eo; [|discriminate].
+  destruct (f_bitlen f) as [l|] eqn:El; [|discriminate]. inversion P; subst b.
+  apply andb_true_iff in Pa. destruct Pa as [Pa P3]. apply andb_true_iff in Pa. destruct Pa as [P1 P2].
+  apply Z.leb_le in P1, P2. apply Z.ltb_lt in P3.
+  unfold def_matches in M. rewrite forallb_forall in M. specialize (M f Hin). unfold match_ok in M.
+  rewrite Em, Eo, El in M. apply Z.eqb_eq in M.
+  rewrite <- M. rewrite field_bits_bit by lia. replace (i - o <? l) with true by lia.
+  replace (i - o + o) with i by lia. reflexivity.
+Qed.
+
+Lemma conflict_sound q d d' : conflict d d' = true -> def_matches q d = true -> def_matches q d' = false.
+Proof.
+  intros C M. destruct (def_matches q d') eqn:M'; [|reflexivity]. exfalso.
+  apply existsb_exists in C. destruct C as [i [_ C]].
+  destruct (pin d i) as [b|] eqn:P; [|discriminate]. destruct (pin d' i) as [b'|] eqn:P'; [|discriminate].
+  rewrite <- (pin_sound q d i b M P), <- (pin_sound q d' i b' M' P') in C. rewrite eqb_reflx in C. discriminate.
+Qed.
+
+(* d is not a fallback, its own match fields are fields of d, and every other definition of the group is a fallback, or has
+   all its match fields inside fields of d, or conflicts with d *)
+Definition sel_stable (g : list dbdef) (d : dbdef) : bool :=
+  negb (d_fallback d) && def_covered d d &&
+  forallb (fun d' => d_fallback d' || def_covered d d' || conflict d d') g.
+
+Lemma last_fallback_fb g d : last_fallback g = Some d -> d_fallback d = true.
+Proof.
+  unfold last_fallback.
+  assert (G : forall l acc, (forall a, acc = Some a -> d_fallback a = true) ->
+              fold_left (fun acc d => if d_fallback d then Some d else acc) l acc = Some d -> d_fallback d = true).
+  { induction l as [|x l IH]; intros acc Ha; cbn [fold_left]; [apply Ha|].
+    apply IH. destruct (d_fallback x) eqn:Fx; [|exact Ha]. intros a E. inversion E; subst a. exact Fx. }
+  apply G. intros a E. discriminate.
+Qed.
+
+Theorem sel_stable_sound g d p q : sel_stable g d = true ->
+  (forall f off len, In f (Defn.d_fields d) -> f_bitoff f = Some off -> f_bitlen f = Some len -> exact_field f = true ->
+                     field_bits q off len = field_bits p off len) ->
+  spec_select g p = Some d -> spec_select g q = Some d.
+Proof.
+  unfold sel_stable. intros C H S.
+  apply andb_true_iff in C. destruct C as [C Call]. apply andb_true_iff in C. destruct C as [Nf Own].
+  unfold spec_select in *.
+  destruct (find (fun d0 => negb (d_fallback d0) && def_matches p d0) g) as [d0|] eqn:F.
+  - inversion S; subst d0. pose proof (find_some _ _ F) as [Hin Pd].
+    apply andb_true_iff in Pd. destruct Pd as [_ Mp].
+    assert (Mq : def_matches q d = true) by (rewrite (def_covered_sound d d p q Own H); exact Mp).
+    rewrite (find_ext_in (fun d0 => negb (d_fallback d0) && def_matches q d0) (fun d0 => negb (d_fallback d0) && def_matches p d0)).
+    + rewrite F. reflexivity.
+    + intros d' Hd'. rewrite forallb_forall in Call. specialize (Call d' Hd').
+      apply orb_true_iff in Call. destruct Call as [Call | Cf].
+      * apply orb_true_iff in Call. destruct Call as [Fb | Cv].
+        -- rewrite Fb. reflexivity.
+        -- rewrite (def_covered_sound d d' p q Cv H). reflexivity.
+      * rewrite (conflict_sound q d d' Cf Mq), (conflict_sound p d d' Cf Mp). reflexivity.
+  - apply last_fallback_fb in S. rewrite S in Nf. discriminate.
 Qed.
 
 (* ====================================================================== *)
